@@ -115,4 +115,33 @@ def substLine (T : Table) (line : List Char) : List Char :=
   let s := substHand T line
   s.out.reverse ++ s.rest
 
+/-! ### by hand, line by line: the table is updated after every complete command line -/
+
+structure HLState where
+  T : Table
+  h : HState
+  tr : Track := {}
+
+def hlstep (l : HLState) : Option HLState :=
+  match hstep l.T l.h with
+  | none => none
+  | some h' =>
+    if h'.toks.length == l.h.toks.length then some { l with h := h' } else
+    let r := l.h.rest.drop (skipLenC l.h.rest)
+    let tok := lexTokC r
+    let (tr', cmds) := trackTok l.h.st tok.kind (trans l.h.st tok.kind).sub (r.take tok.len) l.tr
+    some { T := cmds.foldl applyCmd l.T, h := h', tr := tr' }
+
+def hlrun : Nat → HLState → HLState
+  | 0, l => l
+  | f + 1, l =>
+    match hlstep l with
+    | none => l
+    | some l' => hlrun f l'
+
+def HLState.finalTable (l : HLState) : Table :=
+  if l.tr.depth == 0 && !l.tr.cont && lineEndState l.h.st then
+    (endItem l.h.st l.tr).pending.reverse.foldl applyCmd l.T
+  else l.T
+
 end YashModel.Alias
